@@ -36,3 +36,7 @@ Definition abs_color (c : gcolor) : color :=
   else if gtyp c =? 1 then CPal (cr d)
   else if gtyp c =? 2 then CCReg (cr d)
   else CBlend (cr d) (cg d) (cb d).
+
+(* a[i] = x on a fixed-size array (kept as a list); i is in range in the translated code (a Go panic otherwise) *)
+Definition go_list_set {A : Type} (l : list A) (i : Z) (x : A) : list A :=
+  firstn (Z.to_nat i) l ++ x :: skipn (S (Z.to_nat i)) l.
